@@ -40,7 +40,7 @@ INVARIANTS = {
     "C05": ["Inv_C05"],
     "C07": ["Inv_C07_AutoFollows", "Inv_C07_OnlyWhenDemanded", "Inv_C07_Judged", "Inv_NoCrash"],
     "C08": ["Inv_C08", "Inv_NoHang", "Inv_NoCrash", "Inv_C01_State"],
-    "C11": ["Inv_C01_State"],
+    "C11": ["Inv_C11", "Inv_C01_State"],
     "C14": ["Inv_C14", "Inv_C14_Last"],
 }
 
